@@ -314,3 +314,28 @@ func VP_C128_len() {
 	}
 	vpCover("reached", true)
 }
+
+
+// C15 / C16: purity (deterministic, history-free, no package-level writes)
+func VP_PURE() {
+	n := vpConfig("n")
+	content := vpString("c", n)
+	for i := 0; i < n; i++ {
+		vpAssume(content[i] >= 32 && content[i] < 127)
+	}
+	vpTrackGlobals()
+	a, errA := Encode(content)
+	_, _ = Encode("other 1234")
+	b, errB := Encode(content)
+	vpAssert((errA == nil) == (errB == nil), "the same call succeeds or fails the same way every time ")
+	if errA == nil && errB == nil {
+		vpAssert(a.Bounds() == b.Bounds() && a.Content() == b.Content(), "the same call returns the same barcode whatever was encoded before")
+		if a.Bounds() == b.Bounds() {
+			for x := 0; x < a.Bounds().Dx(); x++ {
+				vpAssert(a.At(x, 0) == b.At(x, 0), "the same call returns the same pixels whatever was encoded before")
+			}
+		}
+	}
+	vpAssert(vpGlobalWrites() == 0, "no package-level state is written")
+	vpCover("reached", true)
+}
